@@ -16,7 +16,7 @@ RULE = (
 ASSUMPTIONS = [
     "slack: none when the tick is a power of two (the engine's division is exact); otherwise 4 ulp(max(price, tick)) "
     "in direction and distance, which is the 'floating-point representation of the grid' the statement allows",
-    "grid membership: |accepted - k*tick| <= 4 ulp(accepted) for an integer k (k*tick taken exactly over the rationals)",
+    "grid membership: accepted == k*tick exactly over the rationals when the tick is a power of two, else |accepted - k*tick| <= 4 ulp(accepted)",
 ]
 TICKS = [1.0, 2.0, 0.5, 0.25, 0.125, 10.0, 3.0, 0.1, 0.01, 0.05, 1e-5, 7.0, 0.3, 1024.0, 2.0 ** -10, 0.2, 100.0]
 REQUIRED = {
@@ -114,7 +114,7 @@ def judge(res, tick, p, is_buy, a, where):
     if dist_to_grid <= Fraction(4 * math.ulp(p)):
         res.count("class/near_grid_ulp")
     # on the grid?
-    if near > Fraction(4 * math.ulp(a if a != 0 else tick)):
+    if near > (Fraction(0) if exact else Fraction(4 * math.ulp(a if a != 0 else tick))):
         res.violation("grid", "accepted-price-not-on-the-tick-grid", wit)
         return
     if is_buy:
